@@ -331,8 +331,8 @@ Fixpoint first_nonzero (l : list Z) : Z :=
    6  SELECT * ... ORDER BY <expression> without LIMIT returns rows without columns *)
 Definition known_class_q (ncols : nat) (q : query) : Z :=
   match pay_mode_of q with
-  | PayTwice => if forall2b Nat.eqb (out_cols ncols (q_sel q)) (seq 0 (length (out_cols ncols (q_sel q)))) then
-                  (if q_distinct q && has_window q then 4 else 0) else 5
+  | PayTwice => if forall2b Nat.eqb (out_cols ncols (q_sel q)) (seq 0 (length (out_cols ncols (q_sel q))))
+                then 0 else 5
   | PayEmpty => 6
   | PayNormal =>
       if q_distinct q && has_window q then 4
